@@ -57,6 +57,7 @@ func runC12(c *Ctx) {
 	}
 	c.R.Floor("R-C12-1", 20)
 	c12Fields(c, reach)
+	c12Granularity(c, reach)
 	c12Absent(c)
 	c12Report(c)
 }
@@ -93,6 +94,9 @@ func terminalField(e *an.Expr) string {
 	case an.OpParam:
 		return "param"
 	case an.OpCall:
+		if e.Fn != nil && (e.Fn.String() == "(time.Duration).Truncate" || e.Fn.String() == "(time.Duration).Round") && len(e.Args) == 2 {
+			return terminalField(e.Args[0])
+		}
 		if len(e.Args) > 0 {
 			return "options"
 		}
@@ -106,6 +110,7 @@ func c12Fields(c *Ctx, reach map[*ssa.Function]bool) {
 	want := map[string][]string{
 		"corerad.checkRAs":           {"CurrentHopLimit", "ManagedConfiguration", "OtherConfiguration"},
 		"corerad.checkDurations":     {"param"},
+		"corerad.sameSeconds":        {"param"},
 		"corerad.checkMTUs":          {"MTU"},
 		"corerad.checkPrefixes":      {"Prefix", "PrefixLength", "PreferredLifetime", "ValidLifetime"},
 		"corerad.checkRoutes":        {"Prefix", "PrefixLength", "Preference", "RouteLifetime"},
@@ -140,6 +145,21 @@ func c12Fields(c *Ctx, reach map[*ssa.Function]bool) {
 					fmt.Sprintf("%s (side %d) %s %s (side %d)", x, sx, bo.Op, y, sy), "one operand from each RA, the same field on both sides",
 					"a field of one RA is compared with itself or with a different field of the other RA")
 			}
+		}
+		// comparisons delegated to a two-argument boolean helper (checkDurations, sameSeconds, …)
+		for _, ci := range an.CallsIn(fn) {
+			callee := an.StaticCallee(ci.Common())
+			if callee == nil || !load.InModule(callee) || len(ci.Common().Args) != 2 || callee.Signature.Results().Len() != 1 ||
+				typeStr(callee.Signature.Results().At(0).Type()) != "bool" || name == "corerad.checkRAs" {
+				continue
+			}
+			x, y := c.XO.Of(ci.Common().Args[0]), c.XO.Of(ci.Common().Args[1])
+			sx, sy := sideOf(x), sideOf(y)
+			fx, fy := terminalField(x), terminalField(y)
+			got[fx] = true
+			c.R.Check(sx >= 0 && sy >= 0 && sx != sy && fx == fy, "R-C12-2", fmt.Sprintf("%s:compares:%s", name, fx), name, c.pos(ci.Pos()),
+				fmt.Sprintf("%s(%s (side %d), %s (side %d))", c.fname(callee), x, sx, y, sy), "one operand from each RA, the same field on both sides",
+				"a field of one RA is compared with itself or with a different field of the other RA")
 		}
 		var gk []string
 		for k := range got {
@@ -190,7 +210,7 @@ func c12Fields(c *Ctx, reach map[*ssa.Function]bool) {
 			zero := false
 			for _, a := range p.Atoms {
 				x, y, op, ok := effCmp(a)
-				if ok && x.Op == an.OpParam && op == token.EQL {
+				if ok && op == token.EQL && (x.Op == an.OpParam || (x.Op == an.OpCall && x.Fn != nil && x.Fn.String() == "(time.Duration).Truncate" && x.Args[0].Op == an.OpParam)) {
 					if k, isC := y.ConstInt(); isC && k == 0 {
 						zero = true
 					}
@@ -359,4 +379,80 @@ func isPtrToStruct(t types.Type) bool {
 func isNilConst(v ssa.Value) bool {
 	c, ok := v.(*ssa.Const)
 	return ok && c.Value == nil
+}
+
+// c12Granularity (R-C12-5): durations are compared as they appear on the wire.
+// Every ==/!= between time.Duration values in verifyRAs' call graph has each
+// non-constant operand truncated to the wire unit first (1s for option
+// lifetimes, 1ms for the two timers), so that an RA equal to ours after a wire
+// round trip — which truncates — is not reported.
+func c12Granularity(c *Ctx, reach map[*ssa.Function]bool) {
+	n := 0
+	for fn := range reach {
+		name := c.fname(fn)
+		for _, b := range fn.Blocks {
+			for _, in := range b.Instrs {
+				bo, ok := in.(*ssa.BinOp)
+				if !ok || (bo.Op != token.EQL && bo.Op != token.NEQ) || !strings.HasSuffix(typeStr(bo.X.Type()), "time.Duration") {
+					continue
+				}
+				n++
+				for side, v := range []ssa.Value{bo.X, bo.Y} {
+					if _, isC := v.(*ssa.Const); isC {
+						continue
+					}
+					e := c.XO.Of(v)
+					unit := int64(-1)
+					what := terminalField(e)
+					for _, alt := range e.Alts() {
+						if alt.Op == an.OpCall && alt.Fn != nil && alt.Fn.String() == "(time.Duration).Truncate" && len(alt.Args) == 2 {
+							if k, isC := alt.Args[1].ConstInt(); isC {
+								unit = k
+							}
+						} else {
+							unit = -1
+							break
+						}
+					}
+					// which unit does the wire use for this value?
+					want := int64(1000000000)
+					for _, ci := range callersPassing(c, fn, v) {
+						if strings.Contains(ci, "ReachableTime") || strings.Contains(ci, "RetransmitTimer") {
+							want = 1000000
+						}
+					}
+					if what == "ReachableTime" || what == "RetransmitTimer" {
+						want = 1000000
+					}
+					c.R.Check(unit == want, "R-C12-5", fmt.Sprintf("%s:wire-granularity:%s#%d", name, what, side), name, c.pos(bo.Pos()),
+						fmt.Sprintf("operand %s (truncation unit %dns)", e, unit), fmt.Sprintf("operand truncated to the wire unit (%dns) before comparison", want),
+						"a configured sub-unit duration (e.g. valid_lifetime=\"90500ms\") differs from its own wire image: another CoreRAD router with the identical configuration is reported inconsistent")
+				}
+			}
+		}
+	}
+	c.R.Check(n >= 2, "R-C12-5", "corerad.verify:duration-comparisons", "", "", fmt.Sprintf("%d duration comparison(s)", n), ">= 2", "anchor-missing")
+}
+
+// callersPassing renders, for a helper fn whose parameter (possibly truncated)
+// is v's root, the argument expressions its callers pass for that parameter.
+func callersPassing(c *Ctx, fn *ssa.Function, v ssa.Value) []string {
+	e := c.XO.Of(v)
+	idx := -1
+	e.Walk(func(x *an.Expr) bool {
+		if x.Op == an.OpParam && x.Fn == fn {
+			idx = x.Idx
+		}
+		return true
+	})
+	if idx < 0 {
+		return nil
+	}
+	var out []string
+	for _, s := range an.FindCalls(c.srcFuncs(), func(cc *ssa.CallCommon) bool { return an.StaticCallee(cc) == fn }) {
+		if idx < len(s.Common().Args) {
+			out = append(out, c.XO.Of(s.Common().Args[idx]).String())
+		}
+	}
+	return out
 }
